@@ -221,6 +221,9 @@ m("c08-eth-vesting-per-message", "C08", "app/ante/evm/vesting.go",
 m("c08-addgrant-endtime-lockup-only", "C08", "x/vesting/keeper/msg_server.go",
   "\tva.EndTime = types.Max64(newLockupEnd, newVestingEnd)\n", "\tva.EndTime = newLockupEnd\n\t_ = newVestingEnd\n",
   "addGrant#EndTime", "merged account ends with its lockup; ReadSchedule releases the whole vesting total from then on")
+m("c08-unlockedvested-max", "C08", "x/vesting/types/clawback_vesting_account.go",
+  "coins := va.GetUnlockedCoins(blockTime).Min(va.GetVestedCoins(blockTime))", "coins := va.GetUnlockedCoins(blockTime).Max(va.GetVestedCoins(blockTime))",
+  "GetUnlockedVestedCoins", "unlocked-vested = max(unlocked, vested): coins that are only unlocked OR only vested become spendable")
 
 # ---------------- C09 ----------------
 m("c09-clawback-dest-is-funder", "C09", "x/vesting/keeper/msg_server.go",
@@ -259,6 +262,192 @@ m("c09-pastcount-boundary", "C09", "x/vesting/types/schedule.go",
 m("c09-readschedule-start-inclusive", "C09", "x/vesting/types/schedule.go",
   "\tif readTime <= startTime {\n\t\treturn sdk.NewCoins()", "\tif readTime < startTime {\n\t\treturn sdk.NewCoins()",
   "ReadSchedule#limits", "a zero-length first period is released at the start instant")
+
+# ---------------- C10 ----------------
+m("c10-escrow-underdelivery-accepted", "C10", "x/erc20/keeper/msg_server.go",
+  "Add(balanceToken, tokens)\n\n\tif r := balanceTokenAfter.Cmp(expToken); r != 0 {\n\t\treturn nil, errorsmod.Wrapf(\n\t\t\ttypes.ErrBalanceInvariance,\n\t\t\t\"invalid token balance - expected: %v, actual: %v\",\n",
+  "Add(balanceToken, tokens)\n\n\tif r := balanceTokenAfter.Cmp(expToken); r > 0 {\n\t\treturn nil, errorsmod.Wrapf(\n\t\t\ttypes.ErrBalanceInvariance,\n\t\t\t\"invalid token balance - expected: %v, actual: %v\",\n",
+  "convertERC20NativeToken#guard/escrow-balance-check", "fee-on-transfer token: escrow grows by less than the amount, full amount is minted")
+m("c10-unescrow-mints", "C10", "x/erc20/keeper/msg_server.go",
+  "\terr = k.bankKeeper.SendCoinsFromModuleToAccount(ctx, types.ModuleName, receiver, coins)\n",
+  "\tif err = k.bankKeeper.MintCoins(ctx, types.ModuleName, coins); err == nil {\n\t\terr = k.bankKeeper.SendCoinsFromModuleToAccount(ctx, types.ModuleName, receiver, coins)\n\t}\n",
+  "convertERC20NativeCoin", "coin-origin pair: redeeming tokens mints fresh coins instead of releasing the escrow")
+m("c10-wrap-nil-balance", "C10", "x/erc20/keeper/msg_server.go",
+  "\t// Check expected receiver balance after transfer\n\ttokens := msg.Coin.Amount.BigInt()\n\tbalanceTokenAfter := k.BalanceOf(ctx, erc20, contract, receiver)\n\tif balanceTokenAfter == nil {\n\t\treturn nil, errorsmod.Wrap(types.ErrEVMCall, \"failed to retrieve balance\")",
+  "\t// Check expected receiver balance after transfer\n\ttokens := msg.Coin.Amount.BigInt()\n\tbalanceTokenAfter := k.BalanceOf(ctx, erc20, contract, receiver)\n\tif balanceTokenAfter == nil {\n\t\treturn nil, errorsmod.Wrap(err, \"failed to retrieve balance\")",
+  "convertCoinNativeCoin#wrap-nil", "failure branch wraps the (nil) error of the previous call: conversion reports success with a nil response")
+m("c10-unescrow-ignores-transfer-false", "C10", "x/erc20/keeper/msg_server.go",
+  "\tif !unpackedRet.Value {\n\t\treturn nil, errorsmod.Wrap(errortypes.ErrLogic, \"failed to execute unescrow tokens from user\")\n\t}\n", "",
+  "convertCoinNativeERC20#guard/transfer-returned-true")
+m("c10-recv-swallows-convert-error", "C10", "x/erc20/keeper/ibc_callbacks.go",
+  "\tif _, err = k.ConvertCoin(sdk.WrapSDKContext(ctx), msg); err != nil {\n\t\treturn channeltypes.NewErrorAcknowledgement(err)",
+  "\tif _, err = k.ConvertCoin(sdk.WrapSDKContext(ctx), msg); err != nil {\n\t\treturn ack",
+  "OnRecvPacket#convert-error-is-error-ack", "failed auto-conversion on receive returns the success acknowledgement")
+m("c10-ack-refund-on-result", "C10", "x/erc20/keeper/ibc_callbacks.go",
+  "\tcase *channeltypes.Acknowledgement_Error:", "\tcase *channeltypes.Acknowledgement_Error, *channeltypes.Acknowledgement_Result:",
+  "OnAcknowledgementPacket#refund-only-on-error-ack", "sender's coins are re-converted although the transfer succeeded")
+m("c10-middleware-ignores-failed-ack", "C10", "x/erc20/ibc_middleware.go",
+  "\t// return if the acknowledgement is an error ACK\n\tif !ack.Success() {\n\t\treturn ack\n\t}\n\n\treturn im.keeper.OnRecvPacket(ctx, packet, ack)",
+  "\treturn im.keeper.OnRecvPacket(ctx, packet, ack)", "skip-on-failed-ack")
+m("c10-hook-any-recipient", "C10", "x/erc20/keeper/evm_hooks.go",
+  "\t\tif !bytes.Equal(to.Bytes(), types.ModuleAddress.Bytes()) {", "\t\tif bytes.Equal(to.Bytes(), common.Address{}.Bytes()) {",
+  "PostTxProcessing", "every Transfer event of a registered token (to anyone) pays out coins to the sender")
+m("c10-bankwrapper-no-bool-check", "C10", "x/bank/keeper/msg_server.go",
+  "\tif !unpackedRet.Value {\n\t\treturn errorsmod.Wrap(sdkerrors.ErrLogic, \"failed to transfer erc20 tokens\")\n\t}\n", "",
+  "subUnlockedERC20Tokens#guard/transfer-returned-true")
+
+m("c10-bankwrapper-wrap-nil", "C10", "x/bank/keeper/msg_server.go",
+  "\tif evmToBalanceTokenAfter == nil {\n\t\treturn errorsmod.Wrap(erc20types.ErrEVMCall, \"failed to retrieve receiver's balance\")",
+  "\tif evmToBalanceTokenAfter == nil {\n\t\treturn errorsmod.Wrap(err, \"failed to retrieve receiver's balance\")",
+  "subUnlockedERC20Tokens#wrap-nil", "same Wrap(nil) shape in a function without defer (control for c10-wrap-nil-balance)")
+
+# ---------------- C11 ----------------
+m("c11-mint-locked-balance", "C11", "x/liquidvesting/keeper/msg_server.go",
+  "liquidTokenCoin := sdk.NewCoin(liquidDenom.GetBaseDenom(), msg.Amount.Amount)", "liquidTokenCoin := sdk.NewCoin(liquidDenom.GetBaseDenom(), lockedBalance.Amount)",
+  "Liquidate#event/MintCoins", "mints the account's whole locked balance of liquid tokens while only msg.Amount is escrowed")
+m("c11-liquidate-unvested-allowed", "C11", "x/liquidvesting/keeper/msg_server.go",
+  "\tif !va.GetVestingCoins(ctx.BlockTime()).IsZero() {\n\t\treturn nil, errorsmod.Wrapf(errortypes.ErrInvalidRequest, \"account %s has vesting ongoing periods, unable to liquidate unvested coins\", msg.LiquidateFrom)\n\t}\n", "",
+  "Liquidate#guard/fully-vested")
+m("c11-account-keeps-full-lockup", "C11", "x/liquidvesting/keeper/msg_server.go",
+  "\tva.LockupPeriods = types.ReplacePeriodsTail(va.LockupPeriods, decreasedPeriods)\n", "\t_ = decreasedPeriods\n",
+  "Liquidate#account-reduced", "account keeps its full lockup schedule after the split")
+m("c11-redeem-no-burn", "C11", "x/liquidvesting/keeper/msg_server.go",
+  "\t// burn liquid token specified amount\n\terr = k.bankKeeper.BurnCoins(ctx, types.ModuleName, sdk.NewCoins(msg.Amount))\n\tif err != nil {\n\t\treturn nil, errorsmod.Wrapf(types.ErrRedeemFailed, \"failed to burn liquid tokens: %s\", err.Error())\n\t}\n", "",
+  "Redeem#event/BurnCoins", "redeemed liquid tokens stay in supply")
+m("c11-redeem-single-period-unlocked", "C11", "x/liquidvesting/keeper/msg_server.go",
+  "\tif len(upcomingPeriods) > 0 {", "\tif len(upcomingPeriods) > 1 {",
+  "Redeem#schedule-reapplied", "a last remaining period is redeemed without lock")
+m("c11-redeem-mints-original", "C11", "x/liquidvesting/keeper/msg_server.go",
+  "\t// transfer original token to account\n\terr = k.bankKeeper.SendCoinsFromModuleToAccount(",
+  "\t// transfer original token to account\n\tif k.bankKeeper.GetBalance(ctx, k.accountKeeper.GetModuleAddress(types.ModuleName), originalDenomCoin.Denom).IsLT(originalDenomCoin) {\n\t\tif err := k.bankKeeper.MintCoins(ctx, types.ModuleName, sdk.NewCoins(originalDenomCoin)); err != nil {\n\t\t\treturn nil, err\n\t\t}\n\t}\n\terr = k.bankKeeper.SendCoinsFromModuleToAccount(",
+  "Redeem#MintCoins", "missing backing is silently minted in native coins")
+m("c11-denom-endtime-is-start", "C11", "x/liquidvesting/keeper/denom.go",
+  "EndTime:       time.Unix(startTime+periods.TotalLength(), 0),", "EndTime:       time.Unix(startTime, 0),",
+  "CreateDenom#stores-parameter", "denom ends at its start: Redeem sees no upcoming periods and releases unlocked coins")
+m("c11-shift-over-upcoming", "C11", "x/liquidvesting/keeper/msg_server.go",
+  "types.CurrentPeriodShift(va.StartTime.Unix(), ctx.BlockTime().Unix(), va.LockupPeriods)", "types.CurrentPeriodShift(va.StartTime.Unix(), ctx.BlockTime().Unix(), upcomingPeriods)",
+  "Liquidate", "shift into the current period computed over the upcoming list only: with unequal period lengths the liquid token unlocks earlier than the original")
+m("c11-shift-boundary", "C11", "x/liquidvesting/types/schedule.go",
+  "\t\tif elapsedTime+period.Length > currentTime {\n\t\t\treturn currentTime - elapsedTime", "\t\tif elapsedTime+period.Length >= currentTime {\n\t\t\treturn currentTime - elapsedTime",
+  "CurrentPeriodShift#period-end-vs-currentTime")
+
+# ---------------- C13 ----------------
+m("c13-disabled-falls-through", "C13", "x/coinomics/keeper/abci.go",
+  "\t\t\tk.SetPrevBlockTS(ctx, sdk.ZeroInt())\n\t\t}\n\t\treturn\n\t}", "\t\t\tk.SetPrevBlockTS(ctx, sdk.ZeroInt())\n\t\t}\n\t}",
+  "EndBlocker#only-when-enabled", "disabled branch no longer returns: minting continues while disabled")
+m("c13-disabled-tracks-blocktime", "C13", "x/coinomics/keeper/abci.go",
+  "\t\tif !k.GetPrevBlockTS(ctx).IsZero() {\n\t\t\tk.SetPrevBlockTS(ctx, sdk.ZeroInt())\n\t\t}\n",
+  "\t\tk.SetPrevBlockTS(ctx, sdk.NewInt(ctx.BlockTime().UnixMilli()))\n",
+  "EndBlocker#timestamp-forgotten-while-disabled", "while disabled the timestamp follows the block time: the first block after activation mints one interval")
+m("c13-first-block-mints", "C13", "x/coinomics/keeper/inflation.go",
+  "\t\tk.SetPrevBlockTS(ctx, currentBlockTS.RoundInt())\n\t\treturn nil\n\t}\n\n\t// Determine", "\t\tk.SetPrevBlockTS(ctx, currentBlockTS.RoundInt())\n\t}\n\n\t// Determine",
+  "MintAndAllocate#first-block-mints-nothing", "first block falls through and mints for the time since the epoch")
+m("c13-alloc-to-distribution", "C13", "x/coinomics/keeper/inflation.go",
+  "\t\tk.feeCollectorName,\n", "\t\t\"distribution\",\n",
+  "MintAndAllocate#minted-coin-goes-to-fee-collector", "minted coins bypass the fee collector")
+m("c13-timestamp-not-updated", "C13", "x/coinomics/keeper/inflation.go",
+  "\t// Update the previous block timestamp for the next cycle.\n\tk.SetPrevBlockTS(ctx, currentBlockTS.RoundInt())\n", "",
+  "MintAndAllocate#timestamp-updated", "elapsed grows every block: each block mints for the whole time since activation")
+m("c13-cap-ignores-blockmint", "C13", "x/coinomics/keeper/inflation.go",
+  "\tif bankTotalSupply.Add(blockMint).GT(maxSupply) {", "\tif bankTotalSupply.GT(maxSupply) {",
+  "MintAndAllocate#cap-comparison", "cap only triggers once the supply is already above the maximum")
+m("c13-mint-ceil", "C13", "x/coinomics/keeper/inflation.go",
+  "totalMintOnBlockCoin := sdk.NewCoin(params.MintDenom, blockMint.RoundInt())", "totalMintOnBlockCoin := sdk.NewCoin(params.MintDenom, blockMint.Ceil().RoundInt())",
+  "MintAndAllocate#single-rounding", "rounds up instead of to nearest; on the cap branch this can exceed the maximum")
+m("c13-leap-no-century-rule", "C13", "x/coinomics/keeper/inflation.go",
+  "isLeapYear := (currentYear%4 == 0 && currentYear%100 != 0) || currentYear%400 == 0", "isLeapYear := currentYear%4 == 0",
+  "MintAndAllocate#gregorian-leap-divisors", "Julian leap rule")
+m("c13-leap-inverted", "C13", "x/coinomics/keeper/inflation.go",
+  "\tif isLeapYear {\n\t\tyearInMillis, _ = sdk.NewDecFromStr(\"31622400000\")", "\tif !isLeapYear {\n\t\tyearInMillis, _ = sdk.NewDecFromStr(\"31622400000\")",
+  "MintAndAllocate", "366-day divisor in regular years, 365-day divisor in leap years")
+
+m("c13-genesis-calls-mint", "C13", "x/coinomics/genesis.go",
+  "\tk.SetMaxSupply(ctx, maxSupply)\n}", "\tk.SetMaxSupply(ctx, maxSupply)\n\tif params.EnableCoinomics {\n\t\t_ = k.MintAndAllocate(ctx)\n\t}\n}",
+  "InitGenesis#calls-MintAndAllocate", "genesis import runs the mint routine (records a timestamp, so the first block mints)")
+
+# ---------------- C15 ----------------
+m("c15-ucdao-on-liquidvesting-store", "C15", "app/app.go",
+  "\t\tappCodec, keys[ucdaotypes.StoreKey], app.AccountKeeper, app.BankKeeper, authAddr,", "\t\tappCodec, keys[liquidvestingtypes.StoreKey], app.AccountKeeper, app.BankKeeper, authAddr,",
+  "wiring/x/ucdao", "DAO keeper writes its ledger into the liquid vesting store")
+m("c15-refund-minted", "C15", "x/evm/keeper/gas.go",
+  "\t\terr := k.bankKeeper.SendCoinsFromModuleToAccount(ctx, authtypes.FeeCollectorName, msg.From().Bytes(), refundedCoins)",
+  "\t\terr := k.bankKeeper.MintCoins(ctx, types.ModuleName, refundedCoins)\n\t\tif err == nil {\n\t\t\terr = k.bankKeeper.SendCoinsFromModuleToAccount(ctx, types.ModuleName, msg.From().Bytes(), refundedCoins)\n\t\t}\n\t\t_ = authtypes.FeeCollectorName",
+  "RefundGas#MintCoins", "gas refund is minted instead of taken back from the fee collector")
+m("c15-invariants-not-registered", "C15", "app/app.go",
+  "\tapp.mm.RegisterInvariants(&app.CrisisKeeper)\n", "", "invariants-registered")
+m("c15-crisis-not-first", "C15", "app/app.go",
+  "\tapp.mm.SetOrderEndBlockers(\n\t\tcrisistypes.ModuleName,\n\t\tgovtypes.ModuleName,\n", "\tapp.mm.SetOrderEndBlockers(\n\t\tgovtypes.ModuleName,\n\t\tcrisistypes.ModuleName,\n",
+  "crisis-first-in-endblock")
+m("c15-redirect-overwrites-pool", "C15", "x/bank/keeper/keeper.go",
+  "\t\tfeePool.CommunityPool = feePool.CommunityPool.Add(coins...)\n", "\t\tfeePool.CommunityPool = coins\n",
+  "R4/C14.R2@", "redirected burn replaces the community pool instead of adding to it: pool record runs behind the distribution account")
+m("c15-burn-without-collect", "C15", "x/evm/keeper/statedb.go",
+  "\t\tif err := k.bankKeeper.SendCoinsFromAccountToModule(ctx, cosmosAddr, types.ModuleName, coins); err != nil {\n\t\t\treturn err\n\t\t}\n\t\tif err := k.bankKeeper.BurnCoins(ctx, types.ModuleName, coins); err != nil {",
+  "\t\tif err := k.bankKeeper.BurnCoins(ctx, types.ModuleName, coins); err != nil {",
+  "R5/C02.R3@", "write-back burns from the evm module account without first collecting the coins from the account")
+m("c15-upgrade-repair-on-bank-store", "C15", "app/app.go",
+  "v180.CreateUpgradeHandler(app.mm, app.configurator, *app.EvmKeeper, app.BankKeeper, app.DaoKeeper, keys[ucdaotypes.StoreKey]),",
+  "v180.CreateUpgradeHandler(app.mm, app.configurator, *app.EvmKeeper, app.BankKeeper, app.DaoKeeper, keys[banktypes.StoreKey]),",
+  "fixUCDAOTotalBalance", "the tabled upgrade repair is handed the bank store key: it rewrites records in the bank store")
+
+# ---------------- C17 ----------------
+m("c17-endblock-also-sets-basefee", "C17", "x/feemarket/keeper/abci.go",
+  "\tk.SetBlockGasWanted(ctx, updatedGasWanted)\n", "\tk.SetBlockGasWanted(ctx, updatedGasWanted)\n\tif bf := k.CalculateBaseFee(ctx); bf != nil {\n\t\tk.SetBaseFee(ctx, bf)\n\t}\n",
+  "EndBlock#SetBaseFee", "base fee is stepped a second time at the end of every block")
+m("c17-updateparams-any-signer", "C17", "x/feemarket/keeper/msg_server.go",
+  "\tif k.authority.String() != req.Authority {", "\tif req.Authority == \"\" {",
+  "UpdateParams#authority", "anyone can rewrite the base fee through MsgUpdateParams")
+m("c17-zero-basefee-not-stored", "C17", "x/feemarket/keeper/abci.go",
+  "\tif baseFee == nil {\n\t\treturn\n\t}\n\n\tk.SetBaseFee(ctx, baseFee)", "\tif baseFee == nil || baseFee.Sign() == 0 {\n\t\treturn\n\t}\n\n\tk.SetBaseFee(ctx, baseFee)",
+  "BeginBlock#always-stores", "a base fee that reached zero is never written: the stored fee stays one step above")
+m("c17-gas-figure-no-multiplier", "C17", "x/feemarket/keeper/abci.go",
+  "limitedGasWanted := sdk.NewDec(gasWanted.Int64()).Mul(minGasMultiplier)", "limitedGasWanted := sdk.NewDec(gasWanted.Int64())\n\t_ = minGasMultiplier",
+  "EndBlock#gas-figure", "the full declared gas drives the base fee")
+m("c17-empty-block-keeps-old-figure", "C17", "x/feemarket/keeper/abci.go",
+  "\tif !gasUsed.IsInt64() {", "\tif !gasUsed.IsInt64() || gasUsed.IsZero() {",
+  "EndBlock#always-stores", "empty blocks keep the previous block's gas figure: the base fee keeps rising/falling as if the last busy block repeated")
+m("c17-increase-no-min-one", "C17", "x/feemarket/keeper/eip1559.go",
+  "\t\tbaseFeeDelta := math.BigMax(\n\t\t\tx.Div(y, baseFeeChangeDenominator),\n\t\t\tcommon.Big1,\n\t\t)\n", "\t\tbaseFeeDelta := x.Div(y, baseFeeChangeDenominator)\n\t\t_ = common.Big1\n",
+  "increase-branch", "a small base fee never rises (delta rounds to zero)")
+m("c17-decrease-no-floor", "C17", "x/feemarket/keeper/eip1559.go",
+  "\treturn math.BigMax(x.Sub(parentBaseFee, baseFeeDelta), minGasPrice)", "\t_ = minGasPrice\n\treturn x.Sub(parentBaseFee, baseFeeDelta)",
+  "CalculateBaseFee#", "base fee can fall below the minimum gas price")
+m("c17-branches-swapped", "C17", "x/feemarket/keeper/eip1559.go",
+  "\tif parentGasUsed > parentGasTarget {", "\tif parentGasUsed < parentGasTarget {",
+  "CalculateBaseFee#", "increase branch taken below target (and the uint64 subtraction wraps): fee rises when blocks are empty, falls when full")
+
+# ---------------- C18 ----------------
+m("c18-dynfee-feecap-from-tipcap", "C18", "x/evm/types/dynamic_fee_tx.go",
+  "gasFeeCapInt, err := types.SafeNewIntFromBigInt(tx.GasFeeCap())", "gasFeeCapInt, err := types.SafeNewIntFromBigInt(tx.GasTipCap())",
+  "NewDynamicFeeTx#from-ethereum/GasFeeCap", "wrapping a dynamic-fee tx records the tip cap as fee cap (hash changes)")
+m("c18-acl-sig-swapped", "C18", "x/evm/types/access_list_tx.go",
+  "txData.SetSignatureValues(tx.ChainId(), v, r, s)", "txData.SetSignatureValues(tx.ChainId(), v, s, r)",
+  "newAccessListTx#from-ethereum/", "R and S exchanged when wrapping an access-list tx")
+m("c18-legacy-rawsig-order", "C18", "x/evm/types/legacy_tx.go",
+  "return rawSignatureValues(tx.V, tx.R, tx.S)", "return rawSignatureValues(tx.V, tx.S, tx.R)",
+  "LegacyTx#getter/GetRawSignatureValues", "unwrapping a legacy tx exchanges R and S: different sender")
+m("c18-acl-drops-accesslist", "C18", "x/evm/types/access_list_tx.go",
+  "\t\tAccessList: tx.GetAccessList(),\n", "", "AccessListTx).AsEthereumData#to-ethereum/AccessList", "unwrapped access-list tx has an empty access list")
+m("c18-dynfee-copy-tipcap", "C18", "x/evm/types/dynamic_fee_tx.go",
+  "\t\tGasTipCap: tx.GasTipCap,\n\t\tGasFeeCap: tx.GasFeeCap,\n", "\t\tGasTipCap: tx.GasFeeCap,\n\t\tGasFeeCap: tx.GasFeeCap,\n",
+  "DynamicFeeTx).Copy#GasTipCap")
+m("c18-legacy-txtype", "C18", "x/evm/types/legacy_tx.go",
+  "\treturn ethtypes.LegacyTxType", "\treturn ethtypes.AccessListTxType", "LegacyTx#TxType")
+m("c18-decode-acl-as-legacy", "C18", "x/evm/types/tx_data.go",
+  "\tcase ethtypes.AccessListTxType:\n\t\ttxData, err = newAccessListTx(tx)", "\tcase ethtypes.AccessListTxType:\n\t\ttxData, err = NewLegacyTx(tx)",
+  "NewTxDataFromTx#AccessListTxType", "access-list txs are wrapped as legacy txs: chain id and access list are lost")
+m("c18-validate-empty-hash-ok", "C18", "x/evm/types/msg.go",
+  "\tif msg.Hash != txHash {", "\tif msg.Hash != \"\" && msg.Hash != txHash {",
+  "ValidateBasic#hash-matches", "a message without recorded hash passes validation")
+m("c18-dynfee-fee-uses-tipcap", "C18", "x/evm/types/dynamic_fee_tx.go",
+  "\treturn fee(tx.GetGasFeeCap(), tx.GasLimit)", "\treturn fee(tx.GetGasTipCap(), tx.GasLimit)",
+  "DynamicFeeTx#Fee", "Fee/Cost of a dynamic-fee message computed from the tip cap")
+m("c18-dynfee-effprice-args-swapped", "C18", "x/evm/types/dynamic_fee_tx.go",
+  "return EffectiveGasPrice(baseFee, tx.GasFeeCap.BigInt(), tx.GasTipCap.BigInt())", "return EffectiveGasPrice(baseFee, tx.GasTipCap.BigInt(), tx.GasFeeCap.BigInt())",
+  "EffectiveGasPrice#single-definition")
+m("c18-accesslist-first-address", "C18", "x/evm/types/access_list.go",
+  "\t\t\tAddress:     common.HexToAddress(tuple.Address),", "\t\t\tAddress:     common.HexToAddress(al[0].Address),",
+  "ToEthAccessList#tuple-address", "every unwrapped tuple carries the first tuple's address")
 
 json.dump(M, open('/verif/mutants.json', 'w'), indent=1)
 print(len(M), "mutants written")
